@@ -361,7 +361,13 @@ def batch_oracle(q, s, base, mx, batches):
         slot += nslots(c)
     if not allowed:
         return None if batches == [P] else ("no splittable axis but batches() != [query]", {"batches": batches[:3]}, None)
-    why = []
+    # The statement speaks about the axis that was split.  With >= 2 batches that axis is determined by
+    # the output (its values differ between batches, so for every other candidate "other parameters
+    # unchanged" fails); with a single batch it is not, so the output is accepted iff SOME allowed axis is
+    # consistent with all three clauses.  An axis without values is "nothing to split": it only counts
+    # when no allowed axis has values.
+    any_values = any(k == ak for ak, _, _ in allowed for k, _ in P)
+    why, budget_fail, other_fail = [], None, None
     for ak, field, slot in allowed:
         vals = [v for k, v in P if k == ak]
         rest = [(k, v) for k, v in P if k != ak]
@@ -373,18 +379,24 @@ def batch_oracle(q, s, base, mx, batches):
             why.append(f"{ak}: other parameters changed in a batch")
             continue
         if not vals:
-            return None
+            if not any_values and len(batches) == 1:
+                return None
+            why.append(f"{ak}: no values, but another axis has some")
+            continue
+        if [b for b in batches if not any(k == ak for k, _ in b)]:
+            other_fail = other_fail or ("a batch carries no value of the split axis", {"axis": ak}, None)
+            continue
         fits = all(base + ue(rest + [(ak, v)]) <= mx for v in vals)
-        if fits:
-            over = [b for b in batches if base + ue(b) > mx]
-            if over:
-                return ("a batch exceeds the budget although every single value fits",
-                        {"axis": ak, "base": base, "max": mx, "batch_len": ue(over[0]), "batch": over[0][:8]},
-                        (field, slot))
-        empties = [b for b in batches if not any(k == ak for k, _ in b)]
-        if empties:
-            return ("a batch carries no value of the split axis", {"axis": ak}, None)
+        over = [b for b in batches if base + ue(b) > mx] if fits else []
+        if over:
+            budget_fail = budget_fail or (
+                "a batch exceeds the budget although every single value fits",
+                {"axis": ak, "base": base, "max": mx, "batch_len": ue(over[0]), "batch": over[0][:8]},
+                (field, slot))
+            continue
         return None
+    if budget_fail or other_fail:
+        return budget_fail or other_fail
     return ("batches() does not partition any splittable axis", {"tried": why, "n_batches": len(batches)}, None)
 
 
@@ -622,7 +634,14 @@ def main(chk: Check):
         return q & Q(charts=(m.Criterion("a", e.ChartOp.ANY_WORDS, tuple(f"x{i}" for i in range(n)), splittable=True),))
 
     batch_inputs = [(Q.ids(range(900000, 900400)), 0, 700), (Q.ids([1, 2, 3]), 0, m.MAX_URL_LENGTH),
-                    (short_field_query(10, 120), 0, 400), (short_field_query(3, 40), 10, 200)]
+                    (short_field_query(10, 120), 0, 400), (short_field_query(3, 40), 10, 200),
+                    # two splittable criteria, the wider one has a single value that does not fit (seed 7)
+                    (Q(charts=(m.Criterion("longfieldname", e.ChartOp.ALL_WORDS, tuple(f"p{i}" for i in range(10)),
+                                           splittable=True),
+                               m.Criterion("cf_stabilisation_atoms", e.ChartOp.ANY_WORDS,
+                                           ("=x11-libs/a+b0-1.2.3_p20240101-r3",), negate=True, splittable=True))),
+                     57, 200),
+                    (Q.ids([1, 2, 3]) & Q.package_list_any([]), 0, 30)]
     for _ in range(chk.n(48, 300)):
         q = batch_query()
         mode = rng.random()
